@@ -91,7 +91,7 @@ def judge(seq, emit, tag):
     V = []
     want = route(seq[-1])
     got = {}
-    for fname in ('A', 'B', 'C'):
+    for fname in ('A', 'B', 'C', 'a'):
         content = emit.get(fname)
         if content is None:
             continue
@@ -140,7 +140,7 @@ def _task(srv, item):
     if r.get('status') != 'ok' or 'emit' not in r:
         return (cid, [('C18.died', 'process %s while emitting: %s' % (r.get('status'), (r.get('stderr') or '').strip().splitlines()[-1:]))], h['rcs'], 0)
     V = judge(seq, r['emit'], tag)
-    nlines = sum(len([l for l in (r['emit'].get(f) or '').split('\n') if l]) for f in ('A', 'B', 'C'))
+    nlines = sum(len([l for l in (r['emit'].get(f) or '').split('\n') if l]) for f in ('A', 'B', 'C', 'a'))
     return (cid, V, h['rcs'], nlines)
 
 
@@ -171,6 +171,7 @@ def main(tier):
             (('f1', 'info', ('A',)), ('*', '>=warning', ('B',))), (('f1', '*', ('A',)), ('f2', '*', ('B',))), (('*', 'debug,>=error', ('A', 'B')),),
             (('f1', '<info', ('A',)), ('f1', '>info', ('B',))), (('f2', '=error', ('A',)), ('*', 'info,error', ('A',)))]
     base += [(e,) for e in E[::9]][:15]
+    base += [(('f1', 'info', ('a',)),), (('f1', 'info', ('A',)), ('f2', '*', ('a',))), (('f1', '*', ('a',)), ('f2', '*', ('A',)))]
     nsingle = len(seqs)
     seqs += [(a, c) for a in base for c in base]
     # entries added by one load and dropped by the next (the dropped one sorting first or last), also after an unchanged reload in between
@@ -184,7 +185,7 @@ def main(tier):
             seqs.append((keep, keep, two, keep))
     # one entry edited in place: every ordered pair (also after an unchanged reload) and every triple of values of one key - a single destination, a
     # one-item list, a two-item list, the empty list ( ), or the entry missing - alone or beside an entry that never changes
-    DV = [('A',), ('B',), ('=A',), ('A', 'B'), (), None]
+    DV = [('A',), ('B',), ('=A',), ('A', 'B'), (), None, ('a',), ('A', 'a')]      # 'a': a file whose name differs from 'A' in letter case only
     for fac, ex in (('f1', 'info'), ('*', '>=warning')):
         for ctx in ((), (('f2', '*', ('B',)),)):
             mk = lambda d: ctx + (((fac, ex, d),) if d is not None else ())
